@@ -266,8 +266,6 @@ package main
 // ---- segment that contains "?" (%3F) must not be mistaken for the separator.
 // facts about the strings library, stated for "?" only: after ReplaceAll(p, "?", r) with r free of "?" none remains; the
 // first "?" of a + "?" + b, for a free of "?", is at len(a); cutting a concatenation after its left part gives the right part
-//@ spec func qIdx(p string) int = libcall(strings.Index, p, "?")
-//@ spec func queryOf(p string) string = ite(qIdx(p) == -1, "", p[qIdx(p)+1:len(p)])
 //@ axiom escNoQ(p string): libcall(strings.Index, libcall(strings.ReplaceAll, p, "?", "%3F"), "?") == -1
 //@ axiom idxConcatQ(a string, b string): libcall(strings.Index, a, "?") == -1 ==> libcall(strings.Index, a + ("?" + b), "?") == len(a)
 //@ axiom cutRightQ(a string, b string): (a + ("?" + b))[len(a)+1:len(a + ("?" + b))] == b
@@ -275,3 +273,10 @@ package main
 //@   callpre (*interpreter.Interpreter).ExecuteRoute arg2 != nil && arg2.Params == ctx.PathParams && queryOf(arg2.Path) == ctx.Request.URL.RawQuery
 //@ func createHandler$1
 //@   callpre dyn(server.RouteHandler) arg0 != nil && arg0.PathParams == local(params) && arg0.Request == r
+// the compiled handler splits the request's raw query with the interpreter's own function (qsrc: the string a raw-parameter
+// map was split from; URL.Query() silently drops pairs it cannot parse, so ?n=%zz ran a compiled route with n = null
+// where the interpreted route answers 400)
+//@ axiom idxLeadQ(s string): libcall(strings.Index, "?" + s, "?") == 0
+//@ axiom cutLeadQ(s string): ("?" + s)[1:len("?" + s)] == s
+//@ func createCompiledRouteHandler$1
+//@   callpre interpreter.ProcessQueryParams qsrc(arg0) == ctx.Request.URL.RawQuery
